@@ -242,6 +242,7 @@ Definition section_body (pol : Z) (buf : bytes) (order : Z) : outcome (node * Z)
        else Ok (4, Z.min size3 (zlen buf)));
     let '(hlen, ext) := he in
     if zlen buf <? ext then Err E_SIZE else
+    if ext <? hlen then Err E_OVERSIZEHDR else
     let sbuf := sub 0 ext buf in
     let h0 := sec_default size3 stype ext hlen order in
     if stype =? 2 then
@@ -303,6 +304,7 @@ Definition file_body (pol : Z) (buf : bytes) : outcome (option node * Z) :=
     let '(ext, doff) := ed in
     if (size3 =? 16777215) && (ext =? U64 - 1) then Ok (None, pol) else
     if zlen buf <? ext then Err E_SIZE else
+    if ext <? doff then Err E_SIZE else
     let fbuf := sub 0 ext buf in
     do nv <-
       (if (ftype =? 1) && bytes_eqb g NVAR_GUID then
@@ -651,7 +653,9 @@ Fixpoint asm (n : node) (st : ast) {struct n} : outcome (node * ast) :=
     match set_polarity (fst st) (fv_polarity (v_attrs h)) with
     | None => Err E_POLARITY
     | Some pol0 =>
-      do ks <- asm_list kids (pol0, snd st); let '(kids', st1) := ks in vol_asm h buf kids' st1
+      (* the FFS3 flag is per volume: children start with it cleared, the caller's flag is handed back *)
+      do ks <- asm_list kids (pol0, false); let '(kids', st1) := ks in
+      do r <- vol_asm h buf kids' st1; let '(n', st2) := r in Ok (n', (fst st2, snd st))
     end
   end.
 
